@@ -148,6 +148,25 @@ func checkC06(c *Ctx) {
 	if pf := newParserFacts(c); pf.err == nil {
 		ruleFieldCorrespondenceFor(c, pf, tomlLeaves(c), "R6.6", func(dest string) bool { return dest == "Analog.Bidirectional" })
 	}
+	// R6.16 the memory of the duplicate suppression is written by the axis handler only (and created in NewDevice): an entry
+	// removed elsewhere (a mapping action "forgetting" the positions) reads as 0, the shaped value of every position inside the
+	// deadzone - the return to rest is then swallowed as a repetition and the receiver keeps the last deflection
+	if f := dv.fields["lastAnalogValue"]; f != nil {
+		n := 0
+		for _, w := range c.P.writersOfField(f) {
+			n++
+			name := dv.refName(dv.ownerOf(w.Fn))
+			key := "write(Device.lastAnalogValue)@" + shortFn(w.Fn)
+			if sameAnchorName(name, "handleABSEvent") || sameAnchorName(name, "NewDevice") {
+				c.OK("R6.16", key, c.P.Pos(w.Instr.Pos()), "allowed writer")
+			} else {
+				c.Bad("R6.16", key, c.P.Pos(w.Instr.Pos()), "the remembered axis positions are written outside the axis handler: a missing entry reads as the rest value 0, so the next return to rest is suppressed as a repetition and the receiver keeps the stale value")
+			}
+		}
+		if n == 0 {
+			c.Undec("R6.16", "writers(Device.lastAnalogValue)", "-", "no writer of Device.lastAnalogValue found")
+		}
+	}
 	c.importRules(configIntactRules, []string{"R3.7"}, "R6.12")    // deadzones, flip and axis mappings are read from an unmodified copy of the parsed configuration
 	c.importRules(emulationReachRules, []string{"R8.9b"}, "R6.14") // every new position of a controller / pitch-bend axis reaches the transfer function (only the repeated value and the CC-learning filter may drop it): a jitter or rate filter leaves the receiver with a stale value
 	c.MinCount("R6.6", 3)
